@@ -161,6 +161,9 @@ class Source:
                 continue
             if scope is None and self._depth_ns(m.start()) != 0:
                 continue
+            pre = t[lo:m.start()].rstrip()
+            if pre.endswith(',') or (pre.endswith(':') and not pre.endswith('::') and not re.search(r'(public|private|protected)\s*:$', pre)):
+                continue      # a delegating / base constructor call inside a constructor initialiser list, not a definition
             p0 = m.end() - 1
             p1 = match_close(t, p0, '(', ')')
             q = p1 + 1
